@@ -382,43 +382,75 @@ Section Flat.
 
   (* ---------------------------------------------------------------- *)
   (* SAX: the event loop with its stack is the structural recursion      *)
-  Lemma sax_loop_rec : forall (n : node) rest stack m tree,
-      sax_loop N (sax_events n ++ rest) stack m tree
-      = sax_loop N rest stack m (tree ++ sax_rec N n m).
+  Lemma sax_loop_rec c : forall (n : node) rest stack m tree,
+      sax_loop N c (sax_events n ++ rest) stack m tree
+      = sax_loop N c rest stack m (tree ++ sax_rec N c n m).
   Proof.
     induction n as [k a tf|tf kids IHk] using node_ind'; intros rest stack m tree.
     - reflexivity.
     - cbn [sax_events sax_rec app sax_loop].
-      set (m' := sax_matrix N m tf).
+      set (m' := sax_matrix N c m tf).
       rewrite <- app_assoc.
       assert (Hk : forall tree0,
-                 sax_loop N (flat_map sax_events kids ++ [EEnd] ++ rest) (m :: stack) m' tree0
-                 = sax_loop N ([EEnd] ++ rest) (m :: stack) m'
-                            (tree0 ++ flat_map (fun c => sax_rec N c m') kids)).
-      { induction kids as [|c r IHr]; intros tree0.
+                 sax_loop N c (flat_map sax_events kids ++ [EEnd] ++ rest) (m :: stack) m' tree0
+                 = sax_loop N c ([EEnd] ++ rest) (m :: stack) m'
+                            (tree0 ++ flat_map (fun ch => sax_rec N c ch m') kids)).
+      { induction kids as [|ch r IHr]; intros tree0.
         - cbn [flat_map app]. rewrite app_nil_r. reflexivity.
-        - inversion IHk; subst. cbn [flat_map]. rewrite <- app_assoc.
-          rewrite H1, IHr by assumption. rewrite app_assoc. reflexivity. }
+        - inversion IHk as [|? ? Hch Hr]; subst. cbn [flat_map]. rewrite <- app_assoc.
+          rewrite Hch, IHr by assumption. rewrite app_assoc. reflexivity. }
       rewrite Hk. reflexivity.
   Qed.
 
-  Theorem sax_tree_rec (root : node) : sax_tree N root = sax_rec N root None.
+  Theorem sax_tree_rec c (root : node) : sax_tree N c root = sax_rec N c root None.
   Proof.
     unfold sax_tree. rewrite <- (app_nil_r (sax_events root)), sax_loop_rec. reflexivity.
   Qed.
 
   (* SAX order is the document order *)
-  Lemma sax_rec_preorder : forall (n : node) m,
-      map (fun o : @saxout K => (fst (fst o), snd (fst o))) (sax_rec N n m) = preorder n.
+  Lemma sax_rec_preorder c : forall (n : node) m,
+      map (fun o : @saxout K => (fst (fst o), snd (fst o))) (sax_rec N c n m) = preorder n.
   Proof.
     induction n as [k a tf|tf kids IHk] using node_ind'; intros m; [reflexivity|].
-    cbn [sax_rec preorder]. generalize (sax_matrix N m tf). intros m'.
-    induction kids as [|c r IHr]; [reflexivity|].
+    cbn [sax_rec preorder]. generalize (sax_matrix N c m tf). intros m'.
+    induction kids as [|ch r IHr]; [reflexivity|].
     inversion IHk; subst. cbn [flat_map]. rewrite map_app, IHr by assumption.
     f_equal. auto.
   Qed.
 
-  (* a line element anywhere makes the SaxDocument constructor raise *)
+  (* repaired order (parent.dot(child)): the recorded matrices are the
+     reference's, element by element, in the reference's order; an absent
+     matrix stands for the identity *)
+  Lemma sax_matrix_ref c m tf :
+    f_sax_order c = true ->
+    odefm N (sax_matrix N c m tf) = mmul N (odefm N m) (tlist_spec N tf).
+  Proof.
+    intros Hc. unfold sax_matrix. destruct tf as [|t tf'].
+    - cbn [tlist_spec]. symmetry. apply (mmul_I_r N OK).
+    - rewrite Hc. cbn [odefm]. rewrite (parse_tf_spec N OK). reflexivity.
+  Qed.
+
+  Lemma sax_rec_ref c : f_sax_order c = true -> forall (n : node) m,
+      map (fun o : @saxout K => (fst (fst o), snd (fst o), odefm N (snd o))) (sax_rec N c n m)
+      = flatten_ref N n (odefm N m).
+  Proof.
+    intros Hc.
+    induction n as [k a tf|tf kids IHk] using node_ind'; intros m.
+    - cbn [sax_rec flatten_ref map fst snd]. rewrite (sax_matrix_ref c m tf Hc). reflexivity.
+    - cbn [sax_rec flatten_ref]. rewrite <- (sax_matrix_ref c m tf Hc).
+      generalize (sax_matrix N c m tf). intros m'.
+      induction kids as [|ch r IHr]; [reflexivity|].
+      inversion IHk; subst. cbn [flat_map]. rewrite map_app, IHr by assumption.
+      f_equal. auto.
+  Qed.
+
+  Theorem sax_tree_ref c (root : node) :
+    f_sax_order c = true ->
+    map (fun o : @saxout K => (fst (fst o), snd (fst o), odefm N (snd o))) (sax_tree N c root)
+    = flatten_ref N root (mI N).
+  Proof. intros Hc. rewrite sax_tree_rec. apply (sax_rec_ref c Hc root None). Qed.
+
+  (* pinned line2pathd: a line element anywhere makes the SaxDocument constructor raise *)
   Lemma mapM_none_in {A B} (f : A -> option B) l x : In x l -> f x = None -> mapM f l = None.
   Proof.
     induction l as [|y r IH]; intros Hin Hx; [contradiction|].
@@ -427,13 +459,32 @@ Section Flat.
     - rewrite (IH Hin Hx). destruct (f y); reflexivity.
   Qed.
 
-  Theorem sax_line_raises (root : node) a :
-    In (KLine, a) (preorder root) -> sax_parse N root = None.
+  Theorem sax_line_raises c (root : node) a :
+    f_sax_line c = false ->
+    In (KLine, a) (preorder root) -> sax_parse N c root = None.
   Proof.
-    intros Hin. unfold sax_parse. rewrite sax_tree_rec.
-    rewrite <- (sax_rec_preorder root None) in Hin.
+    intros Hc Hin. unfold sax_parse. rewrite sax_tree_rec.
+    rewrite <- (sax_rec_preorder c root None) in Hin.
     apply in_map_iff in Hin. destruct Hin as ([[k a'] m] & E & Hin).
     cbn [fst snd] in E. inversion E; subst.
-    eapply mapM_none_in; [exact Hin|]. reflexivity.
+    eapply mapM_none_in; [exact Hin|]. cbn. unfold line2pathd. rewrite Hc. reflexivity.
   Qed.
+
+  (* mapM after mapM *)
+  Lemma mapM_mapM {A B C} (g : A -> option B) (f : B -> option C) l :
+    match mapM g l with Some l' => mapM f l' | None => None end
+    = mapM (fun x => match g x with Some y => f y | None => None end) l.
+  Proof.
+    induction l as [|x r IH]; [reflexivity|].
+    cbn [mapM]. destruct (g x) as [y|].
+    - destruct (mapM g r) as [ys|].
+      + cbn [mapM]. rewrite IH. reflexivity.
+      + rewrite <- IH. destruct (f y); reflexivity.
+    - reflexivity.
+  Qed.
+  Lemma mapM_map {A B C} (h : B -> option C) (phi : A -> B) l :
+    mapM h (map phi l) = mapM (fun x => h (phi x)) l.
+  Proof. induction l as [|x r IH]; [reflexivity|]. cbn [map mapM]. rewrite IH. reflexivity. Qed.
+  Lemma mapM_ext {A B} (f g : A -> option B) l : (forall x, f x = g x) -> mapM f l = mapM g l.
+  Proof. intros H. induction l as [|x r IH]; [reflexivity|]. cbn [mapM]. rewrite H, IH. reflexivity. Qed.
 End Flat.
